@@ -34,6 +34,7 @@ def run(repo, chk, tier):
     cap_only(repo, chk)
     cap_writers(repo, chk)
     names(repo, chk)
+    prior_mode_predicate(repo, chk)
 
 
 EXPECTED = {
@@ -72,6 +73,10 @@ def enumeration_modes(repo, chk):
         unknown = [c for c in cs if c.kind == 'unknown']
         if unknown:
             chk.unsure('C06.2', 'R15', site, desc, f'cannot classify {unknown[0].text}')
+            continue
+        unresolved = [c for c in cs if isinstance(c.colset, str) and c.colset.startswith('?')]
+        if unresolved and got != exp:
+            chk.unsure('C06.2', 'R15', site, desc, f'the column set `{unresolved[0].colset[1:]}` that is enumerated was not resolved to all / relation / non-relation columns: which pairs this path evaluates is not decided')
             continue
         ok = got == exp and len(multiset) == len(exp)
         why = ''
@@ -316,3 +321,44 @@ def cap_writers(repo, chk):
         chk.expect(ok, 'C06.3w', 'R2', f.site(n), ast.unparse(n), 'whitelisted: 3MR clamp of the cap to MAX_FEATURES_3MR', f'{f.qualname} overwrites args.combination_number_upper_bound (an object shared by all batches of a run): later batches are reduced by something other than the configured cap')
     if not sites:
         chk.ok('C06.3w', 'R2', 'outrank', 'no writer of args.combination_number_upper_bound', 'the cap is the configured value')
+
+
+# -- 8 which heuristics enumerate from the reference model ---------------------------------------------------------------
+PRIOR_HEURISTICS = {'surrogate-SGD', 'surrogate-SVM', 'surrogate-SGD-RP'}
+
+
+from .common import Undecided as _Undecided, pred_eval as _pred_eval, pred_run as _pred_run, heuristic_universe
+
+
+def prior_mode_predicate(repo, chk):
+    """C06.8 - mixed_rank_graph and get_combinations_from_columns switch to the reference-model enumeration exactly when is_prior_heuristic says so.
+    The predicate is a function of two configuration values with a finite domain that matters (the heuristic names the estimator dispatches on,
+    reference model given / not given): it is evaluated for every combination and compared with the confirmed table
+    {surrogate-SGD, surrogate-SVM, surrogate-SGD-RP} x {reference model given}."""
+    m = repo.mod('outrank.core_utils')
+    fn = m.funcs.get('is_prior_heuristic')
+    if fn is None:
+        chk.unsure('C06.8', 'R14', 'outrank/core_utils.py', 'is_prior_heuristic', 'the predicate that selects the reference-model enumeration was not found')
+        return
+    universe = set(PRIOR_HEURISTICS) | heuristic_universe(repo)
+    a = fn.params[0] if fn.params else 'args'
+    wrong = []
+    try:
+        for h in sorted(universe):
+            for ref in ('reference.json', None, ''):
+                env = {f'{a}.heuristic': h, f'{a}.reference_model_JSON': ref}
+                r = _pred_run(fn.node.body, env, m)
+                got = bool(r[1]) if r is not None else False
+                want = h in PRIOR_HEURISTICS and bool(ref)
+                if got != want:
+                    wrong.append((h, ref, got))
+    except _Undecided as u:
+        chk.unsure('C06.8', 'R14', fn.site(), 'is_prior_heuristic', f'the predicate is written with a construct outside the evaluated vocabulary: {u}')
+        return
+    if wrong:
+        h, ref, got = wrong[0]
+        chk.bad('C06.8', 'R14', fn.site(), f'is_prior_heuristic(heuristic={h!r}, reference_model_JSON={ref!r}) = {got}',
+                f'the reference-model enumeration (features of the reference model only, no pairs among the other columns) must be selected exactly for the heuristics {sorted(PRIOR_HEURISTICS)} when a reference model is given; '
+                f'the predicate answers {got} for {h!r} with reference model {ref!r}' + (f' (and {len(wrong) - 1} more combination(s))' if len(wrong) > 1 else '') + ': that run enumerates a different candidate set')
+    else:
+        chk.ok('C06.8', 'R14', fn.site(), f'is_prior_heuristic over {len(universe)} heuristic names x 3 reference-model settings', 'true exactly for the three prior heuristics with a reference model', inspected=3 * len(universe))
